@@ -459,8 +459,8 @@ myth_once_body(myth_once_t * once_control, void (*init_routine)(void)) {
      MYTH_VERIF_EV2("OnCas", VON(once_control), 1);
      init_routine();
      MYTH_VERIF_POINT(62);
-     MYTH_VERIF_EV1("OnDone", VON(once_control));
      once_control->state = myth_once_state_completed;
+     MYTH_VERIF_EV2("OnDone", VON(once_control), once_control->state == myth_once_state_completed);
      return 0;
    }
    MYTH_VERIF_EV2("OnCas", VON(once_control), 0);
@@ -621,8 +621,8 @@ myth_mutex_timedlock_body(myth_mutex_t * mutex,
 static void * myth_mutex_clear_lock_bit(void * mutex_) {
   myth_mutex_t * mutex = mutex_;
   assert(mutex->state & 1);
-  MYTH_VERIF_EV1("MxClr", VMX(mutex));
   __sync_fetch_and_sub(&mutex->state, 1);
+  MYTH_VERIF_EV2("MxClr", VMX(mutex), (mutex->state & 1) == 0);
   return 0;
 }
 
@@ -922,8 +922,8 @@ static inline int myth_barrier_wait_body(myth_barrier_t * barrier) {
       /* I am the last one. wake up all guys.
 	 TODO: spin block */
       MYTH_VERIF_POINT(72);
-      MYTH_VERIF_EV1("BrReset", VBR(barrier));
       barrier->state = 0;	/* reset state */
+      MYTH_VERIF_EV2("BrReset", VBR(barrier), barrier->state == 0);
       //myth_wake_many_from_queue(barrier->sleep_q, 0, 0, c);
       MYTH_VERIF_EV3("BrWake", VBR(barrier), VSQ(barrier->sleep_s), c);
       myth_wake_many_from_stack(barrier->sleep_s, 0, 0, c);
@@ -1095,8 +1095,8 @@ static inline int myth_felock_wait_and_lock_body(myth_felock_t * fe,
 
 static inline int myth_felock_mark_and_signal_body(myth_felock_t * fe,
 						   int status_to_signal) {
-  MYTH_VERIF_EV2("FeMark", VFE(fe), status_to_signal);
   fe->status = status_to_signal;
+  MYTH_VERIF_EV3("FeMark", VFE(fe), status_to_signal, fe->status == status_to_signal);
   myth_cond_signal(&fe->cond[status_to_signal]);
   return myth_mutex_unlock_body(fe->mutex);
 }
@@ -1133,8 +1133,8 @@ void myth_uncond_wait_cb(void *arg1,void *arg2,void *arg3) {
   myth_uncond_t * u = arg1;
   myth_thread_t cur = arg2;
   MYTH_VERIF_EV2("CbEnter", 10, ((long)__builtin_frame_address(0) & 15));
-  MYTH_VERIF_EV2("UcPub", VUC(u), VD(cur));
   u->th = cur;
+  MYTH_VERIF_EV3("UcPub", VUC(u), VD(cur), u->th == cur);
   MYTH_VERIF_EV0("CbExit");
 }
 
